@@ -275,7 +275,11 @@ impl<R: Round> Context<R> {
         // There will be about p/log_B(r) summations when calculating the series, to prevent
         // loss of significant, we needs about log_B(p) guard digits.
         let series_guard_digits = (self.precision.log2_est() / B.log2_est()) as usize + 2;
-        let pow_guard_digits = (self.precision.bit_len() as f32 * B.log2_est() * 2.) as usize; // heuristic
+        // here n is roughly equal to sqrt(self.precision)
+        let n = 1usize << (self.precision.bit_len() / 2);
+        // the final powering exp(r)^(Bⁿ) multiplies the relative error of the series by Bⁿ: n digits
+        // are lost there (n grows like √p, faster than any multiple of log(p)), the rest is a heuristic margin
+        let pow_guard_digits = n + (self.precision.bit_len() as f32 * B.log2_est() * 2.) as usize;
         let work_precision;
 
         // When minus_one is true and |x| < 1/B, the input is fed into the Maclaurin series without scaling
@@ -307,8 +311,6 @@ impl<R: Round> Context<R> {
             let logb = context.ln_base::<B>();
             let (s, r) = x.div_rem_euclid(logb);
 
-            // here m is roughly equal to sqrt(self.precision)
-            let n = 1usize << (self.precision.bit_len() / 2);
             let s: isize = s.try_into().expect("exponent is too large");
             (s, n, r)
         };
